@@ -20,6 +20,8 @@ type T struct {
 	Obs        []string
 	allowPanic bool
 	tracked    []trackedRange
+	crashID    string
+	crashCond  bool
 }
 
 type stop struct{ why string }
@@ -171,6 +173,13 @@ func (t *T) Cover(id string, c bool) {
 	}
 }
 
+// KnownIfCrash: if the code under test panics (or, in the engine, accesses
+// memory out of bounds) later on this run while c holds, the crash belongs to
+// the recorded finding id instead of being a new violation.
+func (t *T) KnownIfCrash(id string, c bool) {
+	t.crashID, t.crashCond = id, c
+}
+
 func (t *T) Known(id string, c bool) {
 	if c {
 		t.KnownIDs = append(t.KnownIDs, id)
@@ -214,7 +223,9 @@ func Run(h func(*T), vec []uint64, params map[string]int) (res Result) {
 			}
 			res.Status = "PANIC"
 			res.Msg = fmt.Sprint(r)
-			if !t.allowPanic {
+			if t.crashID != "" && t.crashCond {
+				res.Known = append(res.Known, t.crashID)
+			} else if !t.allowPanic {
 				res.Fails = append(res.Fails, "no-panic")
 			}
 		}
